@@ -352,13 +352,16 @@ func checkC19(c c19Case) verdict {
 			if status < 400 {
 				return bad(true, labels, "request %d: %s %s with a %d-byte body (over the 1 MiB limit) answered %d", i, h.Method, trunc(h.Path, 80), len(body), status)
 			}
-		case known != "" && h.Method != "POST":
-			if status != 405 {
-				return bad(true, labels, "request %d: %s %s answered %d, want 405 (method not allowed)", i, h.Method, h.Path, status)
+		// The statement asks for a status that "distinguishes success from failure", not for particular codes: a wrong
+		// method or an unknown path must get a failure status (>= 400; the tree answers 405 / 404). HEAD and OPTIONS are
+		// left out: answering them with 2xx (HEAD like GET, OPTIONS for CORS) would be legitimate.
+		case known != "" && h.Method != "POST" && h.Method != "HEAD" && h.Method != "OPTIONS":
+			if status < 400 {
+				return bad(true, labels, "request %d: %s %s answered %d; a wrong method must get a failure status (>= 400)", i, h.Method, h.Path, status)
 			}
-		case isGetEp && h.Method != "GET":
-			if status != 405 {
-				return bad(true, labels, "request %d: %s %s answered %d, want 405", i, h.Method, h.Path, status)
+		case isGetEp && h.Method != "GET" && h.Method != "HEAD" && h.Method != "OPTIONS":
+			if status < 400 {
+				return bad(true, labels, "request %d: %s %s answered %d; a wrong method must get a failure status (>= 400)", i, h.Method, h.Path, status)
 			}
 		case known != "" && h.Method == "POST" && known == h.Ep && mustRefuse:
 			if status < 400 {
@@ -369,8 +372,8 @@ func checkC19(c c19Case) verdict {
 				return bad(true, labels, "request %d: POST %s with a syntactically broken body (%s) answered %d", i, h.Path, class, status)
 			}
 		case known == "" && !isGetEp && !strings.HasPrefix(h.Path, "/docs") && h.Path != "" && !strings.HasPrefix(h.Path, "/?") && pathIsPlainUnknown(h.Path):
-			if status != 404 {
-				return bad(true, labels, "request %d: %s %s (unknown path) answered %d, want 404", i, h.Method, trunc(h.Path, 80), status)
+			if status < 400 {
+				return bad(true, labels, "request %d: %s %s (unknown path) answered %d; want a failure status (>= 400)", i, h.Method, trunc(h.Path, 80), status)
 			}
 		}
 		if status < 100 || status > 599 {
@@ -404,7 +407,7 @@ func trunc(s string, n int) string {
 }
 
 var c19Main = newPart("C19", "hostile-histories",
-	"rapid: histories of 2..16 requests to the REAL server binary: methods {GET,POST,PUT,DELETE,HEAD,PATCH,OPTIONS} x paths (ten endpoints, /, /docs..., unknown, 4 KiB long, percent-encoded, doubled/trailing slashes, case variants) x bodies from a JSON mutation grammar over each endpoint's well-formed body (empty, truncated at any byte, unterminated string, arbitrary bytes, a dropped field, every field x every JSON type incl. null/bool/array/object/number where a string is expected, numbers at +-2^53, +-2^63, 2^64, 1e400, -1, 1.5, skew/period/counter/timestamp extremes, blank and 1 MiB strings, contradictory suites incl. blank raw_suite, nested arrays, bodies at and over the 1 MiB limit), every 3rd..5th request a well-formed probe whose answer is checked against the reference; invariant over the history: every request gets a complete parseable HTTP response within 5 s (one lone retry with 15 s), broken / wrongly typed / out-of-range / missing-required bodies on the POST endpoints get a status >= 400, wrong methods 405, plain unknown paths 404, probes 200 with the RFC value, the process is alive and reports no unrecovered panic; non-trivial = history with at least one non-well-formed request",
+	"rapid: histories of 2..16 requests to the REAL server binary: methods {GET,POST,PUT,DELETE,HEAD,PATCH,OPTIONS} x paths (ten endpoints, /, /docs..., unknown, 4 KiB long, percent-encoded, doubled/trailing slashes, case variants) x bodies from a JSON mutation grammar over each endpoint's well-formed body (empty, truncated at any byte, unterminated string, arbitrary bytes, a dropped field, every field x every JSON type incl. null/bool/array/object/number where a string is expected, numbers at +-2^53, +-2^63, 2^64, 1e400, -1, 1.5, skew/period/counter/timestamp extremes, blank and 1 MiB strings, contradictory suites incl. blank raw_suite, nested arrays, bodies at and over the 1 MiB limit), every 3rd..5th request a well-formed probe whose answer is checked against the reference; invariant over the history: every request gets a complete parseable HTTP response within 5 s (one lone retry with 15 s), broken / wrongly typed / out-of-range / missing-required bodies on the POST endpoints, wrong methods (other than HEAD / OPTIONS) and plain unknown paths get a failure status (>= 400), probes 200 with the RFC value, the process is alive and reports no unrecovered panic; non-trivial = history with at least one non-well-formed request",
 	checkC19)
 
 var jsonValues = []string{"null", "true", "false", "0", "1", "-1", "1.5", "1e3", "1e400", "-1e400", "9007199254740992", "-9007199254740993", "9223372036854775807", "9223372036854775808", "-9223372036854775808", "-9223372036854775809",
